@@ -238,6 +238,25 @@ class Ctx(object):
             self.count("wall_ms:" + unit.name, int(1000 * (time.time() - _t0)))
             self.cur_unit = self.cur_index = self.cur_params = None
 
+    def absorb(self, d, unit=None):
+        """merge the dump of another accumulator (e.g. a pytest worker that ran under the boundary monitors)"""
+        for k, st in d["stats"].items():
+            t = self.stats.setdefault(k, dict(evals=0, held=0, violated=0, inconclusive=0, trivial=0, worst=0.0, worst_measure=None, tol=None))
+            for f in ("evals", "held", "violated", "inconclusive", "trivial"):
+                t[f] += st[f]
+            if st["worst"] > t["worst"]:
+                t["worst"], t["worst_measure"], t["tol"] = st["worst"], st["worst_measure"], st["tol"]
+            self.cells.setdefault(k, set()).update(d["cells"].get(k, []))
+            if unit:
+                self.unit_nontrivial[unit] = self.unit_nontrivial.get(unit, 0) + st["held"] + st["violated"]
+        for v in d["violations"]:
+            if unit:
+                v = dict(v, unit=unit)
+            self.violations.append(v)
+        for k, n in d["counters"].items():
+            self.count("suite:" + k, n)
+        self.harness_errors.extend(d.get("harness_errors", []))
+
     def dump(self):
         return dict(prop=self.prop, tier=self.tier, seed=self.seed, shard=self.shard,
                     stats=self.stats,
